@@ -257,6 +257,54 @@ def oracle_window(ctx, n, kinds=('plain', 'gz')):
                     'one-sided and empty; stdout must be exactly the messages with A<=t<=B in file order, exit 0; distinct = runs'}
 
 
+def oracle_window_yearless(ctx, n, kinds=('plain', 'gz', 'bz2')):
+    """C03 on logs whose timestamps carry no year (classic syslog): the year comes from the file's modification
+    time, and the window ends must stay inclusive, also when several messages carry exactly the instant A or B."""
+    import time as _t
+    rng = e2e.Rng(ctx.seed * 47 + 23)
+    fails, ev = [], 0
+    for k in range(n):
+        nm = rng.range(4, 80)
+        t = 1577836800 + rng.below(86400 * 200) + 3600        # 2020, well inside the year
+        lines, ts = [], []
+        for i in range(nm):
+            t += rng.pick([0, 0, 0, 1, 1, 5, 600])
+            ts.append(t)
+            lines.append((_t.strftime('%b %e %H:%M:%S', _t.gmtime(t)) + ' host prog[%d]: m%03d ' % (100 + i % 5, i)).encode()
+                         + e2e.text_line(rng, 3, 30, weird=False) + b'\n')
+        data = b''.join(lines)
+        mt = ts[-1] + 86400
+        kind = kinds[k % len(kinds)]
+        path = os.path.join(ctx.work, 'c03y_%d.log%s' % (k, e2e.SUFFIX[kind]))
+        e2e.pack(data, kind, path, inner_name='c03y.log', mtime=mt)
+        os.utime(path, (mt, mt))
+        dup = [x for x in set(ts) if ts.count(x) > 1]
+        for w in range(ctx.q(4, 10)):
+            pick = lambda: (rng.pick(dup) if dup and rng.chance(2, 3) else rng.pick(ts)) + rng.pick([0, 0, 0, -1, 1])
+            mode = w % 4
+            a = b = None
+            if mode == 0:
+                a = pick()
+            elif mode == 1:
+                b = pick()
+            elif mode == 2:
+                a = b = rng.pick(dup) if dup else rng.pick(ts)
+            else:
+                a, b = sorted([pick(), pick()])
+            args = (['-a', '+%d' % a] if a is not None else []) + (['-b', '+%d' % b] if b is not None else [])
+            rc, out, err, _ = run_plain(path, args)
+            ev += 1
+            exp = b''.join(l for l, x in zip(lines, ts) if (a is None or x >= a) and (b is None or x <= b))
+            if out != exp or rc != 0:
+                fails.append({'signature': f'window:{kind}-selection-differs', 'kind': kind,
+                              'detail': f'year-less log, mtime {mt}, args {args} rc={rc}: ' + first_diff(out, exp) + f'; messages at A: {ts.count(a) if a else "-"}, at B: {ts.count(b) if b else "-"}',
+                              'args': e2e.BASE_ARGS + args + ['FILE'], 'file_hex': small_hex(data), 'mtime': mt})
+        os.unlink(path)
+    return {'evaluations': ev, 'distinct_nontrivial': ev, 'failures': fails, 'samples': [],
+            'rule': f'{n} year-less syslog-style logs ({kinds}; year from the modification time) with runs of equal instants x windows placed on those instants '
+                    '(A = several messages, B = several messages, A = B): stdout must be exactly the messages with A<=t<=B'}
+
+
 def search_from_disagreements(ctx, corr_results, limit=12):
     """Search step (DESIGN §3 step 5): start from the requests on which model and implementation
     disagreed (components whose request carries a block size and the file bytes: proc, gate, sysl, line)
